@@ -88,6 +88,12 @@ def table1(ctx) -> List[Ob]:
     return out
 
 
+def _guard_conditions_of(root: ast.AST, node: ast.AST):
+    from .ctrl import _guard_conditions
+
+    return _guard_conditions(root, node)
+
+
 @rule("TABLE-2", 6, "the three classification arms record 2 / 1 / 0 targets, fall-through first, and each predicate reads its own table")
 def table2(ctx) -> List[Ob]:
     out: List[Ob] = []
@@ -122,6 +128,19 @@ def table2(ctx) -> List[Ob]:
             calls = [c for c in method_calls(ast.Module(n.body, []), "_add_jump_inst")]
             key = f"{role} arm"
             where = ctx.where(fb, n)
+            if not calls:
+                # the arm only chooses the tuple (`targets = (..)`); one call behind the chain records it:
+                #     if targets is not None: flowinfo._add_jump_inst(inst.offset, targets)
+                asg = [s_ for s_ in n.body if isinstance(s_, ast.Assign) and len(s_.targets) == 1 and isinstance(s_.targets[0], ast.Name) and isinstance(s_.value, ast.Tuple)]
+                if len(asg) == 1:
+                    var = asg[0].targets[0].id
+                    later = [c for c in method_calls(fbx, "_add_jump_inst") if len(c.args) == 2 and isinstance(c.args[1], ast.Name) and c.args[1].id == var and A.lineno(c) > A.lineno(asg[0])]
+                    # the call is unconditional or guarded only by `<var> is not None` (the arm that records nothing sets None)
+                    def _only_none_guard(c_) -> bool:
+                        gs_ = _guard_conditions_of(fbx, c_)
+                        return all(t_ in (f"{var} is not None",) and p_ or t_ in (f"{var} is None",) and not p_ for t_, p_ in gs_ if var in t_) and not [1 for t_, p_ in gs_ if var not in t_ and "offset == 0" not in t_ and "is_jump_target" not in t_]
+                    if len(later) == 1 and _only_none_guard(later[0]):
+                        calls = [ast.copy_location(ast.Call(func=later[0].func, args=[later[0].args[0], asg[0].value], keywords=[]), asg[0])]
             if len(calls) != 1 or len(calls[0].args) != 2 or not isinstance(calls[0].args[1], ast.Tuple):
                 out.append(bad("TABLE-2", fb.qualname, key, where, f"the {role} arm does not record its targets with one _add_jump_inst(offset, (<targets>)) call"))
                 continue
